@@ -394,7 +394,11 @@ def r6_batcher(prog: Program, rep: Report):
         rep.unrec("C19.R6", ln, "len", "constructor does not store (data, batch_size) in two fields / __len__ has not one return")
         return
     cached = sorted(fields - {data_f, size_f})
-    if cached:
+    called = sorted(x for x in cached if prog.resolve(bc, x) is not None and not prog.resolve(bc, x).is_property)
+    if called:
+        # a helper method that was not inlined (several returns): what it computes is not in view here
+        rep.unrec("C19.R6", ln, "len", f"__len__ delegates to self.{called[0]}(), which this rule does not see through")
+    elif cached:
         rep.viol("C19.R6", ln, "len", f"__len__ reads self.{cached[0]}, a value computed outside __len__ (at construction), instead of the "
                  f"current length of self.{data_f}",
                  scenario="b = Batcher(lst, 2); lst.append(x): len(b) is stale, the new tail is unreachable (IndexError) and iteration "
